@@ -677,3 +677,67 @@ def _(m, callee, args):
 @model(r'^Result::<.*>::ok$')
 def _(m, callee, args):
     return some(args[0].fields[0]) if disc_is(m, args[0], 0) else NONE()
+
+
+# ------------------------------------------------------------------ str prefix/suffix tests
+def _pat_chars(m, pat):
+    kind, p = _pat_pred(m, pat)
+    return kind, p
+
+
+@model(r'str::<impl str>::strip_suffix::<')
+def _(m, callee, args):
+    cs = rstr(m, args[0]).cs
+    kind, p = _pat_chars(m, args[1])
+    if kind == 'str':
+        if len(cs) >= len(p) and match_at(m, cs, len(cs) - len(p), p):
+            return some(S(cs[:len(cs) - len(p)]))
+        return NONE()
+    if cs and any(cmp_char_eq(m, cs[-1], q) for q in p):
+        return some(S(cs[:-1]))
+    return NONE()
+
+
+@model(r'str::<impl str>::strip_prefix::<')
+def _(m, callee, args):
+    cs = rstr(m, args[0]).cs
+    kind, p = _pat_chars(m, args[1])
+    if kind == 'str':
+        if match_at(m, cs, 0, p):
+            return some(S(cs[len(p):]))
+        return NONE()
+    if cs and any(cmp_char_eq(m, cs[0], q) for q in p):
+        return some(S(cs[1:]))
+    return NONE()
+
+
+@model(r'str::<impl str>::starts_with::<')
+def _(m, callee, args):
+    cs = rstr(m, args[0]).cs
+    kind, p = _pat_chars(m, args[1])
+    if kind == 'str':
+        return match_at(m, cs, 0, p)
+    return bool(cs) and any(cmp_char_eq(m, cs[0], q) for q in p)
+
+
+@model(r'str::<impl str>::ends_with::<')
+def _(m, callee, args):
+    cs = rstr(m, args[0]).cs
+    kind, p = _pat_chars(m, args[1])
+    if kind == 'str':
+        return len(cs) >= len(p) and match_at(m, cs, len(cs) - len(p), p)
+    return bool(cs) and any(cmp_char_eq(m, cs[-1], q) for q in p)
+
+
+@model(r'str::<impl str>::contains::<')
+def _(m, callee, args):
+    cs = rstr(m, args[0]).cs
+    kind, p = _pat_chars(m, args[1])
+    if kind == 'str':
+        return find(m, cs, p) >= 0
+    return any(cmp_char_eq(m, c, q) for c in cs for q in p)
+
+
+@model(r'str::<impl str>::is_empty$|^String::is_empty$')
+def _(m, callee, args):
+    return len(rstr(m, args[0]).cs) == 0
